@@ -44,6 +44,19 @@ CLAIMED = {
             'Generated-input search; per pattern the image of the declared space is compared as a set with the '
             'brute-force reference set. Combinations declaring > 3000 vectors are excluded and counted.',
             'Trusted: vf/refconn.py; the two constraint-violation imputers are documented not to impute (all -1 marker).'),
+    'C11': ('property-based testing: Hypothesis-generated graphs with connection choices (conditional connectors, '
+            'grouping nodes, exclusions); per reference selection scenario the DSG API (iter_conn_edges, '
+            'validate_conn_edges, apply) is compared with brute-force R-CONN; processor-level differential against the '
+            'reference full-architecture set for both encoders',
+            'Generated-input search with an independent per-scenario oracle; selection graphs are kept simple (no shared '
+            'options / incompatibilities) so that disagreements are attributable to the connection logic.',
+            'Trusted: vf/refsel.py conn_settings (grouping degree = sums of present members), vf/refconn.py.'),
+    'C13': ('bounded-exhaustive enumeration of constraint type x sizes x placements x {DSG API all orders, COMPLETE, FAST} '
+            '+ unit-level exhaustive index matrices + Hypothesis-generated constrained graphs and linked design-variable '
+            'nodes; oracle = R-SEL with the documented index predicate',
+            'Exhaustive over the stated core (unsatisfiable sizes only for all-permanent placement, where documentation '
+            'and statement agree), random beyond.',
+            'Trusted: vf/refsel.py index predicate; constraint order = choice-id order (ordered_choice_nodes).'),
 }
 
 NOT_YET = 'check not built yet in this session (see DESIGN.md 6 for the plan); will be claimed once it is registered'
